@@ -1373,10 +1373,15 @@ class XEmitter(FamilyEmitter):
         finally:
             self.tr.open_group = set()
         fix = []
+        def eta(m):
+            # a lambda, so that call-by-value evaluation (vm_compute) does not unfold all fuel at once
+            xs = " ".join(f"a{j}_" for j in range(len(self.tr.sigs[m].params)))
+            return f"(fun {xs} => {m} fuel {xs})"
+
         for i, n in enumerate(names):
             sig = self.tr.sigs[n]
             wild = " ".join("_" for _ in sig.params)
-            recs = " ".join(f"({m} fuel)" for m in names)
+            recs = " ".join(eta(m) for m in names)
             fix.append(f"{'Fixpoint' if i == 0 else 'with'} {n} (fuel : nat) {{struct fuel}} : {ftype(n)} :=\n"
                        f"  match fuel with\n  | O => fun {wild} => None\n  | S fuel => {n}_body {recs}\n  end")
         out.append("\n".join(fix) + ".\n")
